@@ -33,6 +33,10 @@ func IOCodec(rwc io.ReadWriteCloser) *jsonCodec {
 type jsonCodec struct {
 	rwc        io.ReadWriteCloser
 	remoteAddr string
+
+	// dec is kept between reads because it buffers: bytes it read past the
+	// end of one message belong to the next one.
+	dec *json.Decoder
 }
 
 func (codec *jsonCodec) RemoteAddr() string {
@@ -40,8 +44,11 @@ func (codec *jsonCodec) RemoteAddr() string {
 }
 
 func (codec *jsonCodec) ReadMessage() (*Message, error) {
+	if codec.dec == nil {
+		codec.dec = json.NewDecoder(codec.rwc)
+	}
 	var msg Message
-	err := json.NewDecoder(codec.rwc).Decode(&msg)
+	err := codec.dec.Decode(&msg)
 	return &msg, err
 }
 
